@@ -220,6 +220,7 @@ type rsec struct {
 	Kind   string   `json:"kind"`
 	Codecs []rcodec `json:"codecs"`
 	Exts   []rext   `json:"exts,omitempty"`
+	Dir    int      `json:"dir,omitempty"` // PeerConnection suites: 0/2 sendrecv, 1 recvonly, 3 sendonly, 4 inactive
 }
 
 // attribute lines of a section's codecs, in offer order
